@@ -120,6 +120,9 @@ func execIn(t *testing.T, scn *Scenario, tape []int32, run *Run) {
 			if l.Server != nil {
 				s.Reserve(len(l.STasks))
 			}
+			rn.registerLink(i)
+		}
+		for i := range scn.Links {
 			rn.startLink(i)
 		}
 		run.Reason = s.Drive()
